@@ -13,10 +13,10 @@ LEVEL = "model_checking"
 def describe(e):
     if e.get("op") == "EnvNames":
         return "prefix %r: reported %s, rule %s, not honoured %s, wrong field %s" % (e["prefix"], e["reported"], e["model"], e["notHonoured"], e["wrongField"])
-    return "prefix %r, file %s: %s; invalidated %s -> err %r (names the field: %s) %s" % (
+    return "prefix %r, file %s: %s; invalidated %s%s -> err %r (names the field: %s) %s" % (
         e.get("prefix"), e.get("format") or "none",
         [(".".join(s["path"]), "sources " + "+".join(s["sources"]), "expected " + s["winner"], "loaded from " + s["loadedFrom"], s["loaded"]) for s in e.get("subjects", [])],
-        ".".join(e.get("invalid", [])) or "nothing", e.get("err"), e.get("namesField"), (e.get("msg") or "")[:200])
+        ".".join(e.get("invalid", [])) or "nothing", " (its whole section left unset)" if e.get("unsetSection") else "", e.get("err"), e.get("namesField"), (e.get("msg") or "")[:200])
 
 
 def run(chk, scratch):
@@ -26,6 +26,11 @@ def run(chk, scratch):
     vlib.tlc_must_pass(r, "ConfigPrecedence")
     if r.violated:
         raise vlib.Inconclusive("ConfigPrecedence.tla violates %s: the specification is wrong" % r.violated)
+    rs = vlib.run_tlc(scratch, [SPEC], "ConfigPrecedence", "ConfigPrecedence_skipunset.cfg", workers=2, timeout=300, fast=True, parse_behaviours=False)
+    vlib.tlc_must_pass(rs, "ConfigPrecedence_skipunset")
+    chk.add_tlc("ConfigPrecedence with validation skipping sections left entirely unset (must violate EveryLevelValidated)", rs)
+    if rs.violated != "EveryLevelValidated":
+        raise vlib.Inconclusive("sensitivity self-test failed: ConfigPrecedence_skipunset.cfg reported %s" % rs.violated)
     chk.add_tlc("ConfigPrecedence: subject fields x present sources x invalidated field x prefix, with winners and environment names", r)
     scen = r.behaviours
     chk.cov["model_scenarios"] = len(scen)
@@ -33,7 +38,7 @@ def run(chk, scratch):
     if not thorough:
         single = [s for s in scen if len(s["subjects"]) == 1]
         pairs = [s for s in scen if len(s["subjects"]) == 2]
-        scen = rnd.sample(single, 900) + rnd.sample(pairs, 600)
+        scen = rnd.sample(single, 900) + rnd.sample(pairs, 600) + rnd.sample([s for s in single if s["unsetSection"]], 60)
     chk.sample({"scenario": {k: scen[0][k] for k in ("prefix", "subjects", "invalid")}})
     inp = os.path.join(scratch, "c15-scen.ndjson")
     vlib.write_ndjson(inp, scen)
@@ -46,6 +51,7 @@ def run(chk, scratch):
     chk.nontrivial += sum(1 for e in loads if any(len(s["sources"]) > 1 for s in e["subjects"]) or e["invalid"])
     chk.cov["loads"] = len(loads)
     chk.cov["loads_with_invalidated_field"] = sum(1 for e in loads if e["invalid"])
+    chk.cov["loads_with_a_whole_section_left_unset"] = sum(1 for e in loads if e.get("unsetSection"))
     chk.cov["prefixes_for_environment_names"] = sorted({e["prefix"] for e in ev if e["op"] == "EnvNames"})
     chk.sample({"load": {k: loads[0][k] for k in ("prefix", "subjects", "invalid", "err")}})
     chk.cov["rule"] = ("scenario = one or two leaf fields of a three-level structure (string, int, duration, float; keys with '_', '-' and digits) x the subset of {explicit flag, environment variable, "
